@@ -82,7 +82,7 @@ type Case struct {
 	Wide   bool     `json:"wide"`  // a source operand of a kind that ReadOperand delivers with 64 bits
 	Kinds  []string `json:"kinds"` // operand kinds used
 	Class  string   `json:"class"` // generator class (corner / random / witness)
-	Sparse bool     `json:"sparse,omitempty"` // probe the named VGPRs only in the lanes 0,1,2,31,32,62,63 (plus every register that changed)
+	Sparse bool     `json:"sparse,omitempty"` // probe the named VGPRs only in the active lanes and lanes 0,1,2,31,32,62,63 (plus every register that changed)
 	NoDec  string   `json:"nodec,omitempty"`
 	Panic  string   `json:"panic,omitempty"`
 	NotImp bool     `json:"notimpl,omitempty"`
@@ -296,7 +296,7 @@ func run(c *Case) {
 		}
 		if code >= 256 && code <= 511 {
 			for l := 0; l < 64; l++ {
-				if c.Sparse && !(l <= 2 || l == 31 || l == 32 || l >= 62) {
+				if c.Sparse && !(l <= 2 || l == 31 || l == 32 || l >= 62 || c.Pre.EXEC&(1<<uint(l)) != 0) {
 					continue
 				}
 				for k := 0; k < n && code-256+k <= 255; k++ {
@@ -387,25 +387,60 @@ func zi(x int) string {
 	return fmt.Sprintf("%d", x)
 }
 
+// bytesCoq: runs (start, [bytes]) of consecutive addresses (the input is sorted by address)
 func bytesCoq(bs []ByteVal) string {
-	out := make([]string, len(bs))
-	for i, b := range bs {
-		out[i] = fmt.Sprintf("(%d,%d)", b.Addr, b.Val)
+	var out []string
+	for i := 0; i < len(bs); {
+		j := i + 1
+		for j < len(bs) && bs[j].Addr == bs[j-1].Addr+1 {
+			j++
+		}
+		vals := make([]string, j-i)
+		for k := i; k < j; k++ {
+			vals[k-i] = fmt.Sprintf("%d", bs[k].Val)
+		}
+		out = append(out, fmt.Sprintf("(%d,[%s])", bs[i].Addr, strings.Join(vals, ";")))
+		i = j
 	}
 	return strings.Join(out, ";")
 }
 
+// pstateCoq: VGPRs probed in all 64 lanes travel as columns (register, [64 values]), the rest as triples
 func pstateCoq(s Scalars, regs []RegVal, mem, lds []ByteVal) string {
-	var sg, vg []string
+	var sg, vg, vc []string
+	cnt := map[int]int{}
+	for _, r := range regs {
+		if r.Lane >= 0 {
+			cnt[r.Idx]++
+		}
+	}
+	col := map[int]*[64]uint32{}
 	for _, r := range regs {
 		if r.Lane < 0 {
 			sg = append(sg, fmt.Sprintf("(%d,%d)", r.Idx, r.Val))
+		} else if cnt[r.Idx] == 64 {
+			if col[r.Idx] == nil {
+				col[r.Idx] = &[64]uint32{}
+			}
+			col[r.Idx][r.Lane] = r.Val
 		} else {
 			vg = append(vg, fmt.Sprintf("(%d,%d,%d)", r.Lane, r.Idx, r.Val))
 		}
 	}
-	return fmt.Sprintf("(mkP %d %s %s %d %s [%s] [%s] [%s] [%s])", s.SCC, z(s.VCC), z(s.EXEC), s.M0, z(s.PC),
-		strings.Join(sg, ";"), strings.Join(vg, ";"), bytesCoq(mem), bytesCoq(lds))
+	idxs := make([]int, 0, len(col))
+	for i := range col {
+		idxs = append(idxs, i)
+	}
+	sort.Ints(idxs)
+	for _, i := range idxs {
+		vals := make([]string, 64)
+		for l := 0; l < 64; l++ {
+			vals[l] = fmt.Sprintf("%d", col[i][l])
+		}
+		vc = append(vc, fmt.Sprintf("(%d,[%s])", i, strings.Join(vals, ";")))
+	}
+	return fmt.Sprintf("(mkP %d %s %s %d %s [%s] [%s] [%s] [%s] [%s])", s.SCC, z(s.VCC), z(s.EXEC), s.M0, z(s.PC),
+		strings.Join(sg, ";"), strings.Join(vg, ";"), strings.Join(vc, ";"), bytesCoq(mem), bytesCoq(lds))
 }
 
 func caseCoq(c *Case) string {
@@ -1165,8 +1200,8 @@ func main() {
 					continue
 				}
 				first := len(res.Cases)
-				for k := 0; k < memGrid+*perv; k++ {
-					if k < memGrid && !*grid {
+				for k := 0; k < memGridN(m)+*perv; k++ {
+					if k < memGridN(m) && !*grid {
 						continue
 					}
 					c := memCase(alu, m, rng.Fork(), k)
